@@ -69,6 +69,14 @@ class Sim:
     def clear(self):
         self.set_budget(None)
 
+    def new_process(self):
+        """whatever runs next is a different OS process (other pid => other temporary file names)"""
+        self.nproc = getattr(self, "nproc", 0) + 1
+        if self.rs is None:
+            cp.os.pid = 4242 + self.nproc
+        else:
+            self.rs.pid_offset = self.nproc
+
     def buffered(self, flag):
         (self.env.fs if self.rs is None else self.rs).buffered = flag
 
@@ -136,6 +144,7 @@ def body_raw(E, phase, c, c2, rev, K, base, buf=False):
             4: lambda: crop.reap(),
         }
         killed = run_killed(sim, c, actions[phase])
+        sim.new_process()
         # (i) safety: a plain reap by a fresh process refuses or is exact
         try:
             out = cp.Crop(name="t", parent_dir=env.parent).reap(clean_up=False)
@@ -149,7 +158,9 @@ def body_raw(E, phase, c, c2, rev, K, base, buf=False):
         def rec():
             out[0] = recover(env, fn, combos)
 
+        sim.new_process()
         if run_killed(sim, c2, rec):
+            sim.new_process()
             rec()
         return out[0] == ref and not env.exists(crop_dir(env))
 
